@@ -28,7 +28,7 @@ use crate::runner::run_cases;
 pub const SPEC: PropSpec = PropSpec {
     id: "C18",
     level: "exploration",
-    rule: "(1) sequences of 1-200 lines from a grammar (every method x {well-typed, each parameter missing, every JSON type in each slot, extremes -1/0/999/1000/1001/59999/60000/60001/2^63/2^64-1/1e400/1.5}, ids of every JSON type, jsonrpc versions, extra and duplicate keys, notifications) plus byte-level mutations of valid lines, arbitrary UTF-8, whitespace, 200-deep nesting and 100 kB lines; each line goes through dispatch, dispatch_async(no context) and dispatch_async(with a subscription context) on three DynamicConfig instances kept in lock-step; reference model: unparsable or not an object with string jsonrpc + string method => exactly one response, error -32700, id null; version != \"2.0\" => -32600 echoing the id (nothing for a notification); unknown method -32601; bad params -32602; otherwise a result; responses carry jsonrpc \"2.0\", the request's id (JSON-equal) and exactly one of result / error; no id => no response but the effect is applied; after every line snapshot() and a following get_status equal the configuration model (timeout clamped to 1000..60000 and echoed); the three entry points answer identically except for the subscription methods. (2) 2-8 threads: setters with unique values through dispatch, readers taking snapshots: every read is the initial or a written value, timeout always within [1000,60000], a reader never sees one writer's values go backwards, final state = last write per single-writer field. (3) process lane: the production spawn_stdin_listener and control_socket::spawn in a child process fed raw byte lines (incl. non-UTF-8); stdout and the socket are held to the same oracle and a later valid request must still be answered. Non-trivial = every line; distinct = distinct (method class, params class, id class, version class, expected outcome) tuples and distinct line hashes for mutated input.",
+    rule: "(1) sequences of 1-200 lines from a grammar (every method x {well-typed, each parameter missing, every JSON type in each slot, extremes -1/0/999/1000/1001/59999/60000/60001/2^63/2^64-1/1e400/1.5}, ids of every JSON type, jsonrpc versions, extra and duplicate keys, notifications) plus byte-level mutations of valid lines, arbitrary UTF-8, whitespace, 200-deep nesting and 100 kB lines; each line goes through dispatch, dispatch_async(no context) and dispatch_async(with a subscription context) on three DynamicConfig instances kept in lock-step; reference model: unparsable or not an object with string jsonrpc + string method => exactly one response, error -32700, id null; version != \"2.0\" => -32600 echoing the id (nothing for a notification); unknown method -32601; bad params -32602; otherwise a result; responses carry jsonrpc \"2.0\", the request's id (JSON-equal) and exactly one of result / error; no id => no response but the effect is applied; after every line snapshot() and a following get_status equal the configuration model (timeout clamped to 1000..60000 and echoed); the three entry points answer identically except for the subscription methods. (2) 2-8 threads: setters with unique values through dispatch, readers taking snapshots: every read is the initial or a written value, timeout always within [1000,60000], a reader never sees one writer's values go backwards, final state = last write per single-writer field. (3) process lane: the production spawn_stdin_listener and control_socket::spawn in a child process fed raw byte lines (incl. non-UTF-8); stdout and the socket are held to the same oracle and a later valid request must still be answered; a further socket connection that holds a stats subscription (the process publishes every millisecond) sends each request in two writes a few ms apart, so pushes interleave with half-read lines. Non-trivial = every line; distinct = distinct (method class, params class, id class, version class, expected outcome) tuples and distinct line hashes for mutated input.",
     assumptions: &[
         "a top-level JSON array is an unspecified shape (serde accepts positional structs): either outcome is accepted",
         "\"id\": null is treated like an absent id (serde maps it to None); the property does not speak of it",
@@ -54,6 +54,7 @@ pub const SPEC: PropSpec = PropSpec {
         ("process.socket_lines", 300, 10_000),
         ("process.non_utf8_lines", 20, 600),
         ("process.answered_after_hostile_input", 10, 300),
+        ("process.socket_split_lines_with_pushes", 100, 1_200),
     ],
 };
 
@@ -859,6 +860,71 @@ pub fn run_process_lane(cfg: &RunCfg, rep: &mut Report) {
         let _ = child.wait();
         let _ = std::fs::remove_file(&sock);
     }
+    // ---------------- socket: requests split across writes while subscription pushes interleave ----------------
+    // The connection holds a "stats" subscription and the process publishes every millisecond; each request is
+    // written in two parts a few milliseconds apart, so the handler's select! is woken by pushes while a line
+    // is half-read. The answer must be the one the stdin entry point gives.
+    let sock = format!("/tmp/verif-c18-{}-split.sock", std::process::id());
+    let _ = std::fs::remove_file(&sock);
+    let Ok(mut child) = Command::new(&bin).arg(&sock).arg("1").env("RUST_LOG", "off").stdin(Stdio::piped()).stdout(Stdio::null()).stderr(Stdio::null()).spawn() else {
+        rep.inconclusive("process lane: cannot start vctl for the split-write lane".into());
+        return;
+    };
+    let t0 = Instant::now();
+    while !std::path::Path::new(&sock).exists() && t0.elapsed() < Duration::from_secs(10) {
+        std::thread::sleep(Duration::from_millis(10));
+    }
+    if let Ok(mut c) = UnixStream::connect(&sock) {
+        let rx = c.try_clone().ok().map(read_json_lines);
+        let _ = c.write_all(b"{\"jsonrpc\":\"2.0\",\"method\":\"subscribe\",\"params\":{\"topic\":\"stats\"},\"id\":\"sub\"}\n");
+        let mut model = Model::default();
+        let n = cfg.cases(120, 1500);
+        if let Some(rx) = rx {
+            let recv_resp = |want_id: &str| -> Option<String> {
+                let deadline = Instant::now() + Duration::from_secs(5);
+                while Instant::now() < deadline {
+                    match rx.recv_timeout(Duration::from_millis(200)) {
+                        Ok(l) if l.contains(".update") => continue,
+                        Ok(l) if l.contains(want_id) || l.contains("\"id\":null") => return Some(l),
+                        Ok(_) => continue,
+                        Err(_) => continue,
+                    }
+                }
+                None
+            };
+            let _ = recv_resp("\"id\":\"sub\"");
+            for k in 0..n {
+                let ms = 1000 + rng.below(59_000);
+                let line = match k % 3 {
+                    0 => format!("{{\"jsonrpc\":\"2.0\",\"method\":\"set_conn_timeout\",\"params\":{{\"ms\":{ms}}},\"id\":\"q{k}\"}}"),
+                    1 => format!("{{\"jsonrpc\":\"2.0\",\"method\":\"set_mode\",\"params\":{{\"mode\":\"{}\"}},\"id\":\"q{k}\"}}", if rng.chance(1, 2) { "classic" } else { "enhanced" }),
+                    _ => format!("{{\"jsonrpc\":\"2.0\",\"method\":\"get_status\",\"id\":\"q{k}\"}}"),
+                };
+                let mut scratch = Report::new();
+                let exp = reference(&mut model, &line, true, &mut scratch);
+                let cut = 1 + rng.usize_below(line.len() - 1);
+                let ok = c.write_all(&line.as_bytes()[..cut]).is_ok();
+                std::thread::sleep(Duration::from_millis(2 + rng.below(4)));
+                let ok = ok && c.write_all(&line.as_bytes()[cut..]).is_ok() && c.write_all(b"\n").is_ok();
+                rep.count("process.socket_split_lines_with_pushes");
+                rep.eval();
+                if !ok {
+                    rep.violation("C18.process.socket-connection-dropped", format!("split-write lane: the server closed the connection at request #{k}"));
+                    break;
+                }
+                let got = recv_resp(&format!("\"id\":\"q{k}\""));
+                check_response(&exp, got.as_deref(), &line, "socket process (request split across two writes, pushes interleaving)", rep);
+                if got.is_none() {
+                    break;
+                }
+            }
+        }
+    } else {
+        rep.inconclusive("process lane: cannot connect to the split-write control socket".into());
+    }
+    let _ = child.kill();
+    let _ = child.wait();
+    let _ = std::fs::remove_file(&sock);
 }
 
 pub fn run(cfg: &RunCfg) -> Report {
